@@ -102,6 +102,14 @@ func (cr *CheckRun) CheckClient(job *EmittedJob) {
 		c.RetHook = func(e *FuncEnc, results []string) []NamedFormula { return clientObligations(e, co, results) }
 		em.W.Contracts[co.Fn.String()] = c
 		e := &FuncEnc{W: em.W, Fn: co.Fn, Name: fmt.Sprintf("emitted[%s].%s", em.Entry.Name, relName(co.Fn)), D: NewDecls(), Contract: c}
+		if cr.Prop == "C09" {
+			pf := &ParamsFamily{Em: em, RF: job.RF}
+			binds, problems := pf.bindType(co.Fn.Params[2].Type(), co.Op)
+			for _, p := range problems {
+				cr.recordSimple(fmt.Sprintf("emitted[%s].%s/binding/%s", em.Entry.Name, relName(co.Fn), sanitize(p)), false, p, "name normalisation")
+			}
+			e.CallHook = clientRequestHook(cr, co, binds)
+		}
 		cr.VerifyFunc(e, em.Entry.Name, nil, nil)
 	}
 }
@@ -211,4 +219,275 @@ func clientObligations(e *FuncEnc, co clientOp, results []string) []NamedFormula
 		out = append(out, NamedFormula{Name: "ensures#rawbody-open", Props: []string{"C10"}, Formula: implies(and(noErr, rawBody), eq(sx("nClose", e.cur.trace), sx("nClose", e.entry.trace)))})
 	}
 	return out
+}
+
+// ---------------------------------------------------------------- C09: request assembly
+//
+//	emitted func (c *Client) <Op>(ctx, request)
+//	  at call to http.NewRequestWithContext(ctx, M, url, body):
+//	    M == the operation's method
+//	    url == c.BaseURL ++ prefix_0 ++ PathEscape(fmt_T(request.Path.F_1)) ++ ... [++ "?" ++ query.Encode()]
+//	    for every declared query parameter P: query has P.name iff (required or set), with exactly fmt_T of the field value(s);
+//	    no undeclared key
+//	  at call to HTTPClient.Do(req):
+//	    the header operations on req are exactly Set(P.name, fmt_T(field)) for every declared header parameter, guarded by IsSet for optional ones
+//
+// together with the server-side contract (C04/C05: field == lexVal_T(text)) and
+// the wire axioms W1-W4 (lexVal_T(fmt_T(x)) == x for the formatter/parser pairs
+// of the type table) this is the agreement of the property.
+
+// formatterFor: the reference formatter of a parameter type, as the term the
+// library model gives to the stdlib call (hint: float verb taken from the code).
+func formatterFor(e *FuncEnc, p RefParam, fn *ssa.Function, x string, xt types.Type) (string, bool) {
+	switch p.Type {
+	case "integer":
+		return libRes(e, "strconv.FormatInt", 0, []string{x, "10"}, []string{"Int", "Int"}, "Str"), true
+	case "number":
+		bits := "64"
+		if p.Format == "float" {
+			bits = "32"
+		}
+		verb := "101"
+		for _, b := range fn.Blocks {
+			for _, in := range b.Instrs {
+				if c, ok := in.(*ssa.Call); ok {
+					if g := c.Call.StaticCallee(); g != nil && g.String() == "strconv.FormatFloat" {
+						if k, ok := c.Call.Args[1].(*ssa.Const); ok && k.Value != nil {
+							v := k.Int64()
+							if v == 'e' || v == 'f' || v == 'g' || v == 'E' || v == 'G' {
+								verb = itoa(v)
+							}
+						}
+					}
+				}
+			}
+		}
+		return libRes(e, "strconv.FormatFloat", 0, []string{x, verb, "(- 1)", bits}, []string{"Real", "Int", "Int", "Int"}, "Str"), true
+	case "boolean":
+		return libRes(e, "strconv.FormatBool", 0, []string{x}, []string{"Bool"}, "Str"), true
+	case "string":
+		if p.Format == "date-time" {
+			return "", false
+		}
+		return x, true
+	}
+	return "", false
+}
+
+func clientRequestHook(cr *CheckRun, co clientOp, binds []paramBinding) func(e *FuncEnc, in ssa.Instruction, name string, argVals []ssa.Value, args []string) {
+	return func(e *FuncEnc, in ssa.Instruction, name string, argVals []ssa.Value, args []string) {
+		fn := co.Fn
+		reqParam := fn.Params[2]
+		request := e.val[reqParam]
+		pt := reqParam.Type()
+		field := func(b paramBinding) (string, types.Type) {
+			lt := pt.Underlying().(*types.Struct).Field(b.LocField).Type()
+			loc := sx(e.D.FieldSelector(pt, b.LocField), request)
+			return sx(e.D.FieldSelector(lt, b.Field), loc), b.FieldT
+		}
+		strT := types.Typ[types.String]
+		add := func(n string, f string) {
+			e.obligeNamed("call:"+n, fmt.Sprintf("c%d", e.classCount["c09"]), f, in.Pos())
+			e.Obls[len(e.Obls)-1].Props = []string{"C09"}
+		}
+		switch {
+		case name == "net/http.NewRequestWithContext" || name == "net/http.NewRequest":
+			off := 0
+			if name == "net/http.NewRequestWithContext" {
+				off = 1
+			}
+			e.classCount["c09"]++
+			add("NewRequest/method", eq(args[off], e.D.Lit(co.Op.Method)))
+			// expected path
+			c := e.val[fn.Params[0]]
+			ct := fn.Params[0].Type().Underlying().(*types.Pointer).Elem()
+			bi, _, _ := structFieldByName(ct, "BaseURL")
+			url := e.load(e.cur, "("+e.D.FieldAddrFn(ct, bi)+" "+c+")", strT)
+			lit := ""
+			okAll := true
+			for _, s := range co.Op.Segs {
+				if !s.IsVar {
+					lit += "/" + s.Lit
+					continue
+				}
+				lit += "/"
+				var pb *paramBinding
+				for i := range binds {
+					if binds[i].P.In == "path" && binds[i].P.Name == s.Var {
+						pb = &binds[i]
+					}
+				}
+				if pb == nil {
+					okAll = false
+					break
+				}
+				fv, ft := field(*pb)
+				fs, ok := formatterFor(e, pb.P, fn, fv, ft)
+				if !ok {
+					okAll = false
+					break
+				}
+				url = sx("scat", url, e.D.Lit(lit))
+				lit = ""
+				esc := libRes(e, "net/url.PathEscape", 0, []string{fs}, []string{"Str"}, "Str")
+				url = sx("scat", url, esc)
+			}
+			if lit != "" {
+				url = sx("scat", url, e.D.Lit(lit))
+			}
+			// query
+			var qparams []paramBinding
+			for _, b := range binds {
+				if b.P.In == "query" {
+					qparams = append(qparams, b)
+				}
+			}
+			// the query map: the argument of the Encode call
+			var qm string
+			for _, b := range fn.Blocks {
+				for _, in2 := range b.Instrs {
+					if cc, ok := in2.(*ssa.Call); ok {
+						if g := cc.Call.StaticCallee(); g != nil && g.String() == "(net/url.Values).Encode" {
+							if v, ok := e.val[cc.Call.Args[0]]; ok {
+								qm = v
+							}
+						}
+					}
+				}
+			}
+			if okAll {
+				if len(qparams) == 0 {
+					add("NewRequest/url", eq(args[off+1], url))
+				} else if qm != "" {
+					enc := e.D.UF("lib_"+mangle("(net/url.Values).Encode")+"_r0", []string{"Int"}, "Str")
+					add("NewRequest/url", eq(args[off+1], sx("scat", url, sx("scat", e.D.Lit("?"), sx(enc, qm)))))
+				}
+			} else {
+				e.Abstracted = append(e.Abstracted, "path parameter of a type outside the formatter table: URL not decided")
+			}
+			if len(qparams) > 0 && qm == "" {
+				add("NewRequest/query", "false")
+			}
+			if qm != "" {
+				mt := pfURLValues(e, co)
+				vk, hk, vs, hs, _, _ := e.mapKeys(mt)
+				hasArr := sx("select", e.heapName(e.cur, hk, hs), qm)
+				valArr := sx("select", e.heapName(e.cur, vk, vs), qm)
+				var names []string
+				for _, b := range qparams {
+					p := b.P
+					names = append(names, eq("qk", e.D.Lit(p.Name)))
+					fv, ft := field(b)
+					has := sx("select", hasArr, e.D.Lit(p.Name))
+					sl := sx("select", valArr, e.D.Lit(p.Name))
+					var want, present string
+					target, tt := fv, ft
+					present = "true"
+					if isSet, val, vt, isMaybe := maybeParts(e, fv, ft); isMaybe {
+						target, tt, present = val, vt, isSet
+					}
+					if p.IsArray {
+						// the list of formatted elements: only presence and length are decided here
+						want = eq(sx("sl_len", sl), sx("sl_len", target))
+						if !p.Required {
+							// an unset optional list is not sent
+						}
+					} else {
+						fs, ok := formatterFor(e, p, fn, target, tt)
+						if !ok {
+							continue
+						}
+						seq := e.seqOf(sl, strT, e.cur)
+						want = eq(seq, e.D.SeqLit([]string{e.boxed(fs, strT)}))
+					}
+					add("NewRequest/query:"+p.Name, and(eq(has, present), implies(present, want)))
+				}
+				add("NewRequest/query-only-declared", fmt.Sprintf("(forall ((qk Str)) (=> (select %s qk) %s))", hasArr, or(names...)))
+			}
+		case strings.HasSuffix(name, "HTTPClient.Do"):
+			e.classCount["c09"]++
+			e.needProjections()
+			head := sx("respHead", e.entry.trace)
+			// header parameters: declared ones, plus the credential headers of the
+			// operation's security schemes when the request type carries them
+			hb := []paramBinding{}
+			for _, b := range binds {
+				if b.P.In == "header" {
+					hb = append(hb, b)
+				}
+			}
+			if li, lt, ok := structFieldByName(pt, "Headers"); ok {
+				hst := lt.Underlying().(*types.Struct)
+				seenH := map[string]bool{}
+				for _, b := range hb {
+					seenH[normName(b.P.Name)] = true
+				}
+				for _, alt := range co.Op.Security {
+					for _, sc := range alt {
+						name := ""
+						switch sc.Kind() {
+						case "bearer":
+							name = "Authorization"
+						case "apikey-header":
+							name = sc.Name
+						}
+						if name == "" || seenH[normName(name)] {
+							continue
+						}
+						for i := 0; i < hst.NumFields(); i++ {
+							if normName(hst.Field(i).Name()) == normName(name) {
+								seenH[normName(name)] = true
+								hb = append(hb, paramBinding{P: RefParam{Name: name, In: "header", Type: "string", Required: true}, LocField: li, Field: i, FieldT: hst.Field(i).Type()})
+							}
+						}
+					}
+				}
+			}
+			order := headerSetKeys(fn)
+			sort.SliceStable(hb, func(i, j int) bool { return indexFold(order, hb[i].P.Name) < indexFold(order, hb[j].P.Name) })
+			for _, b := range hb {
+				fv, ft := field(b)
+				target, tt, present := fv, ft, "true"
+				if isSet, val, vt, isMaybe := maybeParts(e, fv, ft); isMaybe {
+					target, tt, present = val, vt, isSet
+				}
+				fs, ok := formatterFor(e, b.P, fn, target, tt)
+				if !ok || b.P.IsArray {
+					e.Abstracted = append(e.Abstracted, "header parameter outside the formatter table: header operations not decided")
+					return
+				}
+				head = ite(present, sx("head_set", head, e.D.Lit(keyAsEmitted(order, b.P.Name)), fs), head)
+			}
+			add("Do/headers", eq(sx("respHead", e.cur.trace), head))
+		}
+	}
+}
+
+func headerSetKeys(f *ssa.Function) []string {
+	var out []string
+	for _, b := range f.Blocks {
+		for _, in := range b.Instrs {
+			if c, ok := in.(*ssa.Call); ok {
+				if g := c.Call.StaticCallee(); g != nil && (g.String() == "(net/http.Header).Set" || g.String() == "(net/http.Header).Add") {
+					if k, ok := constString(c.Call.Args[1]); ok {
+						out = append(out, k)
+					}
+				}
+			}
+		}
+	}
+	return out
+}
+
+func pfURLValues(e *FuncEnc, co clientOp) *types.Map {
+	for _, b := range co.Fn.Blocks {
+		for _, in := range b.Instrs {
+			if mm, ok := in.(*ssa.MakeMap); ok {
+				if m, ok := mm.Type().Underlying().(*types.Map); ok {
+					return m
+				}
+			}
+		}
+	}
+	return types.NewMap(types.Typ[types.String], types.NewSlice(types.Typ[types.String]))
 }
